@@ -556,6 +556,10 @@ def install(reg):
     reg.spec("fits_float32", s_fits_float32, n_fits_float32)
     reg.spec("snapshot", s_snapshot, None)
     reg.spec("cfg_sizecode_invalid", s_cfg_sizecode_invalid, n_cfg_sizecode_invalid)
+    # control-flow ghost: has the path entered the function's first loop?  (native twin: False - the replayer only
+    # supplies item lists on which the loop and the constructor cannot refuse, so a native refusal is the limit check)
+    reg.spec("reached_loop", lambda ex: any(str(l).startswith("loop1") or ":loop1" in str(l) for l in ex.st.labels),
+             lambda: False)
     reg.spec("cfgname2key_spec", lambda ex, name: n_cfgname2key_spec(name), n_cfgname2key_spec)
     reg.spec("cfgname_known", lambda ex, name: n_cfgname_known(name), n_cfgname_known)
     reg.spec("cfgkey2name_spec", s_cfgkey2name_spec, n_cfgkey2name_spec)
